@@ -30,11 +30,21 @@ fn main() {
             hs.push(std::thread::spawn(move || {
                 let mut rng = gen::Rng(0x2c0000 + th);
                 loop {
-                    if found.lock().unwrap().len() >= 6 { return; }
+                    if found.lock().unwrap().len() >= 10 { return; }
                     let (key, iv) = (rng.bytes(16), rng.bytes(16));
                     let mut z = gm_zuc::ZUC::new(&key, &iv);
                     for step in 0..2000u32 {
                         let (_, r1, r2) = z.verif_state();
+                        let (cells, _, _) = z.verif_state();
+                        let x1 = ((cells[11] & 0xffff) << 16) | (cells[9] >> 15);
+                        let x2 = ((cells[7] & 0xffff) << 16) | (cells[5] >> 15);
+                        let (w1, w2) = (r1.wrapping_add(x1), r2 ^ x2);
+                        let (uu, vv) = ((w1 << 16) | (w2 >> 16), (w2 << 16) | (w1 >> 16));
+                        if uu == 0 || vv == 0 {
+                            let mut f = found.lock().unwrap();
+                            f.push(format!("(\"{}\", \"{}\", {}, \"{}\")", hex::encode(&key), hex::encode(&iv), step, if uu == 0 { "sbox-u" } else { "sbox-v" }));
+                            eprintln!("{}", f.last().unwrap());
+                        }
                         if r1 == 0 || r2 == 0 {
                             let mut f = found.lock().unwrap();
                             f.push(format!("(\"{}\", \"{}\", {}, \"{}\")", hex::encode(&key), hex::encode(&iv), step, if r2 == 0 { "r2" } else { "r1" }));
